@@ -248,6 +248,12 @@ func mergeContracts(dst, src *FuncContract) {
 		}
 	}
 	dst.HasAssigns = dst.HasAssigns || src.HasAssigns
+	for k := range src.Abstract {
+		if dst.Abstract == nil {
+			dst.Abstract = map[string]bool{}
+		}
+		dst.Abstract[k] = true
+	}
 	dst.NoPanic = dst.NoPanic || src.NoPanic
 	dst.Pure = dst.Pure || src.Pure
 	dst.Trusted = dst.Trusted || src.Trusted
